@@ -16,6 +16,12 @@ def judge(ck, c, r, I, M, S, sup):
     return None
 
 
+def varargs_matcher(f, case):
+    m = f.get('matcher', {})
+    return (m.get('id') == 'bare_variadic_without_values' and case.get('obs') == 'varargs' and case.get('bare') is not None
+            and case.get('nvals') == 0)
+
+
 def missing_stream(ck, cases):
     """signatures with a parameter without annotation / without return annotation, at any position"""
     import gen_checker as G
@@ -68,6 +74,28 @@ def run(tier, seed, replay=None):
             if what:
                 ck.violation(what, c, stream='missing', extra={'impl': r})
         ck.coverage['missing_annotation_stream'] = {'cases': len(ck.missing), 'outcomes': hist}
+        # *args / **kwargs with a missing or bare annotation, 0..3 extra values (full product: finite)
+        if replay is None or replay.get('case', {}).get('obs') == 'varargs':
+            va = [replay['case']] if replay is not None else \
+                [{'obs': 'varargs', 'stream': 'varargs', 'star': st, 'bare': b, 'nvals': n, 'lead': ld}
+                 for st in ('*', '**') for b in [None] + CC.BARE_T + CC.BARE_B for n in (0, 1, 2, 3) for ld in (False, True)]
+            vres = ck.run_impl('w_checker', va, timeout=900)
+            vh = {}
+            for c, r in zip(va, vres):
+                if r is None or 'error' in r:
+                    ck.oblige('impl-worker:varargs', 'correspondence', False, f'{c} -> {r}')
+                    continue
+                ck.note_case(json.dumps(c), nontrivial=True)
+                vh[CC.OUT_NAMES.get(r['out'], str(r['out']))] = vh.get(CC.OUT_NAMES.get(r['out'], str(r['out'])), 0) + 1
+                what = None
+                if r['out'] != 1:
+                    what = (f'a call of a function whose {c["star"]}-parameter annotation is {"bare " + c["bare"] if c["bare"] else "missing"} '
+                            f'({c["nvals"]} extra values) gave {CC.OUT_NAMES.get(r["out"], r["out"])} instead of PedanticTypeCheckException')
+                elif r.get('body_ran'):
+                    what = 'the body ran although the annotation of the variadic parameter is missing / bare'
+                if what:
+                    ck.violation(what, c, stream='varargs', extra={'impl': r}, matcher=varargs_matcher)
+            ck.coverage['varargs_stream'] = {'cases': len(va), 'outcomes': vh}
     return CC.run('C06', tier, seed, replay, PROPS, judge, extra_streams=extra,
                   rule_extra='; bare stream: the 15 bare forms x values; missing stream: generated signatures (1-4 parameters, def/async/method) '
                              'with one missing or bare annotation at a random position, conforming arguments by keyword')
